@@ -75,10 +75,23 @@ def headIsSym : List Expr → Bool
 /-- `name.lower() in LIST_FUNCTIONS`: the first argument of these, when a symbol, is printed as a global variable (D2) -/
 def listFn (f : Name) : Bool := Lscr.listHas Gen.PropTables.listFunctions (Lscr.pyLower f)
 
+/-- the object index of `the P of sprite|cast|sound n` for which the model's text is the translation: the model keeps only the
+    popped node's `.name` (finding F20, open), which is right for an integer literal and for a local variable / parameter (other
+    than `me`); a string loses its `new LingoString(...)`, a global its `_global.`, a declared property its `this.`, any other
+    expression becomes its operator name — those stay outside -/
+def idxJsOk : Expr → Bool
+  | .int _ => true
+  | .var .loc n => jsIdOk n && n != "me".toList
+  | .var .param n => jsIdOk n && n != "me".toList
+  | _ => false
+
 mutual
 /-- expressions of the JavaScript link theorems: the whole domain of `Link.Emb` (integers, strings, symbols, the four variable
     kinds, unary and all 19 binary operators, `field`, plain function calls, linear lists) minus the two name clashes above (reserved words, D3 = F141; symbol arguments of
-    list functions, D2 = F140) -/
+    list functions, D2 = F140); property lists, `the P of <object expression>`, chunk expressions `char|word|item|line a [to b] of d`,
+    the built-in properties `the P of sprite|cast|sound n` (every entry of the four tables) for an index in `idxJsOk` (F20),
+    `the number of chars|words|items|lines of e`, `the last char|… of e`, `the P of field e`, the function-like properties
+    `the mouseH`, `the ticks`, … (`66 n`: owner from KNOWN_PROPERTIES, else `_key`; `the date` / `the time`), `the floatPrecision` … `the timeoutScript` -/
 def JsOkE : Expr → Bool
   | .int _ => true
   | .str s => strOk s
@@ -92,6 +105,15 @@ def JsOkE : Expr → Bool
   | .field a => JsOkE a
   | .call f as => jsIdOk f && !specialCall f && !(listFn f && headIsSym as) && JsOkL as
   | .list as => JsOkL as
+  | .plist as => JsOkL as
+  | .oprop v o => jsIdLex v && JsOkE o
+  | .chunk _ a b d => JsOkE a && JsOkE b && JsOkE d
+  | .the t k [e] =>
+    ((match Link.theTbl t with | some (_, tb, _) => tb.any (fun x => x.1 == k) | none => false) && idxJsOk e)
+      || ((match Link.strThe t k with | some (_, r) => (Link.chunkTy r).isSome | none => false) && JsOkE e)
+      || (decide (t = .field) && JsOkE e)
+  | .the .special k [] => decide (k < 6)
+  | .key v => jsIdLex v
   | _ => false
 def JsOkL : List Expr → Bool
   | [] => true
@@ -167,22 +189,38 @@ def txBody (ind : Nat) : List JS → Str
   | s :: ss => txT ind s ++ txBody ind ss
 end
 
-/-- assignment targets (the four variable kinds; `me` is not assignable) -/
+/-- assignment targets: the four variable kinds (`me` is not assignable), `the P of <variable>` (opcode 62) and the built-in
+    properties `the P of sprite|cast|sound n` (5d 06 / 09 / 04 / 0d) of `JsOkE`; `set the P of field n` is finding F38 -/
 def JsOkLv : Expr → Bool
   | .var .loc n => jsIdOk n
   | .var .param n => jsIdOk n
   | .var .glob n => jsIdLex n
   | .var .prop n => jsIdLex n
+  | .oprop v (.var .loc n) => jsIdLex v && jsIdOk n
+  | .oprop v (.var .param n) => jsIdLex v && jsIdOk n
+  | .oprop v (.var .glob n) => jsIdLex v && jsIdLex n
+  | .oprop v (.var .prop n) => jsIdLex v && jsIdLex n
+  | .the t k [e] => (Link.theTbl t).isSome && JsOkE (.the t k [e])
   | _ => false
 
+/-- targets of `delete` / `hilite`: the bottom of the chunk chain is not a global variable.  A global referenced by NAME (`46 n`) is a
+    `GlobalVariable` node or a `LocalVariable` node (agent-link2's `EmbTg` leaves both open: it depends on the handler's globals
+    table, F120), and the JavaScript differs (`_global.g` / `g`) -/
+def tgOk : Expr → Bool
+  | .chunk _ _ _ d => tgOk d
+  | .var .glob _ => false
+  | _ => true
+
 /-- statements of the JavaScript link theorems: `set <variable> = e`, command calls `f a, b` (incl. calls of handlers of the
-    same script: `fn_call(f(a, b))`), `return` / `return e`, `exit` -/
+    same script: `fn_call(f(a, b))`), `return` / `return e`, `exit`, `delete <chunk>` / `hilite <chunk>` (`delete(x.word[2]);`) -/
 def JsOkS : Stmt → Bool
   | .set lv v => JsOkLv lv && JsOkE v
   | .call f as =>
     if f = "return".toList then (match as with | [] => true | [e] => JsOkE e | _ => false)
     else jsIdOk f && !specialCall f && !(listFn f && headIsSym as) && JsOkL as
   | .exit => true
+  | .delete t => JsOkE t && tgOk t
+  | .hilite t => JsOkE t && tgOk t
   | _ => false
 
 def JsOkSs : List Stmt → Bool
@@ -199,6 +237,8 @@ def JsOkT : Stmt → Bool
   | .set lv v => JsOkS (.set lv v)
   | .call f as => JsOkS (.call f as)
   | .exit => true
+  | .delete t => JsOkS (.delete t)
+  | .hilite t => JsOkS (.hilite t)
   | _ => false
 def JsOkTs : List Stmt → Bool
   | [] => true
